@@ -32,6 +32,12 @@ var c17OSPure = map[string]bool{"Getenv": true, "LookupEnv": true, "ExpandEnv": 
 var c17FilepathFS = map[string]bool{"Walk": true, "WalkDir": true, "Glob": true, "EvalSymlinks": true, "Abs": true}
 var c17PurePackages = map[string]bool{"fmt": true, "strings": true, "path": true, "path/filepath": true, "errors": true, "bytes": true,
 	"unicode": true, "unicode/utf8": true, "strconv": true, "sort": true, "github.com/krotik/ecal/verifhook": true}
+
+// methods that do not touch the file system whatever their receiver is here (os.FileInfo accessors, error / Stringer,
+// sync.Map and mutex operations)
+var c17PureMethods = map[string]bool{"Error": true, "String": true, "IsDir": true, "Mode": true, "Name": true, "Size": true, "ModTime": true,
+	"IsRegular": true, "Load": true, "Store": true, "LoadOrStore": true, "Delete": true, "Lock": true, "Unlock": true, "RLock": true, "RUnlock": true}
+
 var c17Builtins = map[string]bool{"string": true, "len": true, "append": true, "make": true, "new": true, "cap": true, "copy": true,
 	"panic": true, "byte": true, "rune": true, "int": true, "error": true, "delete": true}
 
@@ -186,7 +192,7 @@ func c17OpenFacts(root string) ([]c17OpenFact, error) {
 		switch {
 		case strings.HasPrefix(q, "same:"):
 			return "same"
-		case strings.HasPrefix(q, "builtin:"), q == "method:Error", q == "method:String":
+		case strings.HasPrefix(q, "builtin:"), strings.HasPrefix(q, "method:") && c17PureMethods[q[7:]]:
 			return "pure"
 		case q == "" || strings.HasPrefix(q, "method:") || strings.HasPrefix(q, "local:"):
 			return "unknown:call not classified (it may touch the file system)"
